@@ -4,7 +4,7 @@ From Coq Require Import List ZArith QArith Bool Arith Lia.
 From PV Require Import Model.SchedTree Model.SchedConc
   Proofs.SchedTreeProofs Proofs.SchedTreeSeq Proofs.SchedTreeRun Proofs.SchedTreeSpec
   Proofs.SchedConcSections Proofs.SchedConcProofs Proofs.SchedConcCor.
-From PV Require Import Model.Sched Model.SchedList Proofs.SchedProofs Proofs.SchedStep Proofs.SchedList Proofs.SchedShare.
+From PV Require Import Model.Sched Model.SchedList Proofs.SchedProofs Proofs.SchedStep Proofs.SchedList Proofs.SchedListSpec Proofs.SchedShare.
 Import ListNotations.
 Local Open Scope Z_scope.
 
@@ -23,6 +23,27 @@ Print Assumptions C01_list.
 Theorem C01_list_single : forall p, valid p -> list_drain [p] = drain p.
 Proof. exact list_single. Qed.
 Print Assumptions C01_list_single.
+
+(* Meaning of the executable specification the correspondence run evaluates on the tokens of the
+   implementation for list cases (Model/SchedList.v list_spec_b): at zero tolerance an accepted
+   observation of a list of const / line / once parts is exactly that succession of streams
+   (Left = number of tokens, finish = sum of the durations).  Step parts are judged by step_spec_b,
+   whose splitting into level windows is not proved (as for spec_b). *)
+Theorem C01_list_spec_b_meaning : forall ps left xs fin, Forall valid ps -> forallb simple ps = true ->
+  list_spec_b (map (fun p => (p, 0)) ps) 0 left xs fin = true ->
+  left = Z.of_nat (length xs) /\ fin = list_spec_finish ps /\ map Some xs = list_tokens ps 0.
+Proof. exact list_spec_b_sound. Qed.
+Print Assumptions C01_list_spec_b_meaning.
+
+(* non-vacuity: 2 operations at once, then 2 rps for 1 s, then a 0.5 s pause - the stream
+   0, 0, 0, 0.5 s with finish 1.5 s is accepted and is the model's own drain *)
+Example C01_list_example :
+  let ps := [POnce 2; PConst (2 # 1) 1000000000; PConst 0 500000000] in
+  Forall valid ps /\ forallb simple ps = true /\
+  list_spec_b (map (fun p => (p, 0)) ps) 0 4 [0; 0; 0; 500000000] 1500000000 = true /\
+  option_map d_tokens (list_drain ps) = Some [Some 0; Some 0; Some 0; Some 500000000] /\
+  option_map d_finish (list_drain ps) = Some 1500000000.
+Proof. cbn zeta. split; [repeat constructor; easy|]. split; [reflexivity|]. vm_compute. repeat split; reflexivity. Qed.
 
 (* The leaves of any composite (step levels, list parts) SHARED by any number of consumers, each
    running any program of Next / Left calls, under EVERY interleaving of composite.go's
